@@ -45,7 +45,7 @@ Init0 == [tid |-> "none", line |-> 0, maxsize |-> 0, pool |-> 0, door |-> 0, loa
           stuck |-> 0, skipped |-> 0, una |-> {}, qcap |-> 1024, batch |-> 128, sight |-> <<>>, tickSeq |-> 0, lc |-> <<>>, lrunv |-> [k \in KeyDom |-> {}]]
 
 V(s, prop, kind) ==
-  IF Cardinality(s.viol) >= 40 THEN s
+  IF Cardinality({x \in s.viol : x[1] = prop /\ x[4] = kind}) >= 25 THEN s      \* (per property and kind: a flood of one kind must not hide another)
   ELSE [s EXCEPT !.viol = @ \cup {<<prop, s.tid, s.line, kind>>}]
 
 Vif(s, cond, prop, kind) == IF cond THEN V(s, prop, kind) ELSE s
